@@ -380,7 +380,24 @@ func GenTT(seed uint64) *Scenario {
 	lows := []uint64{1, 2, 3, 0xFFFF, 0xFFFE, 0x8000, 0x1234, 0xFFFFF, 0x3FFFFF}
 	nl := rng.Range(2, len(lows))
 	nt := rng.Range(2, 6)
+	// the ageing work is partitioned over worker goroutines: keys whose index
+	// lies at or next to k/n of the capacity (any partition into n <= 32 parts)
+	capNow := ttCapacityFor(sc.TT.SizeMB)
+	boundary := func() uint64 {
+		n := uint64(rng.Range(2, 32))
+		k := uint64(rng.Range(1, int(n)))
+		idx := k * capNow / n
+		if rng.Intn(2) == 0 {
+			idx = capNow - (uint64(rng.Range(1, int(n)))*((capNow+n-1)/n))%capNow // partitions counted from the end, rounded up
+		}
+		idx = (idx + uint64(rng.Range(0, 4)) + capNow - 2) % capNow
+		return idx | uint64(rng.Range(1, nt))<<40
+	}
+	sc.Procs = []int{1, 2, 3, 5, 6, 7, 12, 16, 24}[rng.Intn(9)]
 	key := func() uint64 {
+		if rng.Intn(6) == 0 && capNow > 0 {
+			return boundary()
+		}
 		if rng.Intn(10) == 0 {
 			k := rng.Uint64()
 			if k == 0 {
